@@ -146,10 +146,10 @@ package pppoe
 //@ func (s *Server) handleSession
 //@   ghost lastSession *Session = nil
 //@   modifies *
-//@   ensures lastSession != nil && !sameBytes(clientMAC, old(lastSession.ClientMAC)) ==> lastSession.Authenticated == old(lastSession.Authenticated) && lastSession.ClientIP == old(lastSession.ClientIP) && lastSession.BytesIn == old(lastSession.BytesIn) && lastSession.Username == old(lastSession.Username)
+//@   ensures lastSession != nil && !old(sameBytes(clientMAC, lastSession.ClientMAC)) ==> lastSession.Authenticated == old(lastSession.Authenticated) && lastSession.ClientIP == old(lastSession.ClientIP) && lastSession.BytesIn == old(lastSession.BytesIn) && lastSession.Username == old(lastSession.Username)
 
 //@ func (s *Server) handlePADT
 //@   ghost lastSession *Session = nil
 //@   ghost removedID mathint = 0 - 1
 //@   modifies *
-//@   ensures lastSession != nil && !sameBytes(clientMAC, old(lastSession.ClientMAC)) ==> removedID == 0 - 1
+//@   ensures lastSession != nil && !old(sameBytes(clientMAC, lastSession.ClientMAC)) ==> removedID == 0 - 1
